@@ -5,6 +5,8 @@ import (
 	"strings"
 
 	mocker "github.com/tencent/goom"
+	m1 "verifh/targets/c06dup/v1/model"
+	m2 "verifh/targets/c06dup/v2/model"
 	mx "verifh/targets/c06mixed"
 	"verifh/vk"
 )
@@ -337,6 +339,90 @@ func runGenericWide(cs GenCase) string {
 }
 
 // ---------------------------------------------------------------------------------------------
+// two types of one printed name ("model.User") in two packages of one name
+
+// DupCase is the replay artefact.
+type DupCase struct {
+	Dup   bool     `json:"dup_names"`
+	Order []string `json:"order"` // "v1" | "v2": which type is mocked, one builder each, in this order
+	How   string   `json:"how"`   // apply | return
+	Keep  bool     `json:"keep"`  // true: earlier mocks stay installed; false: each builder is reset before the next
+}
+
+// runDup: each step mocks User.Name of one of the two packages with a builder of its own; after
+// every step the mocked one(s) must answer with their replacement (callback sees the receiver) and
+// the other with its original; at the end everything is restored.
+func runDup(cs DupCase) string {
+	u1, u2 := &m1.User{N: 7}, &m2.User{N: 9}
+	orig := map[string]int{"v1": 5 + 7 + 1000, "v2": 5 + 9 + 2000}
+	call := map[string]func() int{"v1": func() int { return m1.Call(u1, 5) }, "v2": func() int { return m2.Call(u2, 5) }}
+	want := map[string]int{"v1": orig["v1"], "v2": orig["v2"]}
+	var builders []*mocker.Builder
+	defer func() {
+		for _, b := range builders {
+			vk.Try(func() { b.Reset() })
+		}
+	}()
+	seen := 0
+	for step, which := range cs.Order {
+		if !cs.Keep {
+			for _, b := range builders {
+				b.Reset()
+			}
+			builders = nil
+			want["v1"], want["v2"] = orig["v1"], orig["v2"]
+		}
+		b := mocker.Create()
+		builders = append(builders, b)
+		val := 9100 + step
+		msg, p := vk.Try(func() {
+			switch which + "/" + cs.How {
+			case "v1/apply":
+				b.Struct(&m1.User{}).Method("Name").Apply(func(u *m1.User, a int) int { seen = u.N; return val })
+			case "v1/return":
+				b.Struct(&m1.User{}).Method("Name").Return(val)
+			case "v2/apply":
+				b.Struct(&m2.User{}).Method("Name").Apply(func(u *m2.User, a int) int { seen = u.N; return val })
+			case "v2/return":
+				b.Struct(&m2.User{}).Method("Name").Return(val)
+			}
+		})
+		if p {
+			return fmt.Sprintf("panic: step %d mocking %s/model.User.Name panicked: %s", step, which, vk.Short(msg, 100))
+		}
+		want[which] = val
+		for _, w := range []string{"v1", "v2"} {
+			seen = -1
+			var got int
+			msg, p := vk.Try(func() { got = call[w]() })
+			if p {
+				return fmt.Sprintf("panic: step %d: %s/model.User.Name panicked: %s", step, w, vk.Short(msg, 100))
+			}
+			if got != want[w] {
+				kind := "other-affected"
+				if w == which {
+					kind = "not-replaced"
+				}
+				return fmt.Sprintf("%s: step %d (%v, mocked now: %s): %s/model.User.Name(5) returned %d, expected %d", kind, step, cs.Order[:step+1], which, w, got, want[w])
+			}
+			if cs.How == "apply" && w == which && seen != map[string]int{"v1": 7, "v2": 9}[w] {
+				return fmt.Sprintf("receiver: step %d: the callback for %s saw receiver N=%d", step, w, seen)
+			}
+		}
+	}
+	for _, b := range builders {
+		b.Reset()
+	}
+	builders = nil
+	for _, w := range []string{"v1", "v2"} {
+		if got := call[w](); got != orig[w] {
+			return fmt.Sprintf("not-restored: %s/model.User.Name(5) returns %d after Reset", w, got)
+		}
+	}
+	return ""
+}
+
+// ---------------------------------------------------------------------------------------------
 // mocks requested through a method value: Func(obj.Method)
 
 // MVCase is the replay artefact of the method-value part.
@@ -545,6 +631,28 @@ func extraCases(c *vk.Ctx, base int64) {
 			c.Distinct(fmt.Sprint(cs))
 			if f != "" {
 				c.Violate(fmt.Sprintf("generic-receiver method=%s inst=%s how=return class=%s", m, inst, f[:indexByte(f, ':')]), f, cs)
+			}
+		}
+	}
+	for _, order := range [][]string{{"v1"}, {"v2"}, {"v1", "v2"}, {"v2", "v1"}, {"v1", "v2", "v1"}, {"v2", "v1", "v2"}} {
+		for _, how := range []string{"apply", "return"} {
+			for _, keep := range []bool{false, true} {
+				mine := c.Mine(idx)
+				idx++
+				if !mine || c.Full() {
+					continue
+				}
+				cs := DupCase{true, order, how, keep}
+				f := runDup(cs)
+				n++
+				c.Res.Evaluations++
+				c.Res.Traces++
+				c.Res.States++
+				c.Res.Transitions += int64(4 * len(order))
+				c.Distinct(fmt.Sprint(cs))
+				if f != "" {
+					c.Violate(fmt.Sprintf("same-printed-name order=%v how=%s keep=%v class=%s", order, how, keep, f[:indexByte(f, ':')]), f, cs)
+				}
 			}
 		}
 	}
